@@ -7,7 +7,7 @@ from .c06 import empty_dump
 
 ID = "C13"
 LEVEL = "fault_enumeration"
-RUNS = (1000, 50000)
+RUNS = (3000, 100000)
 RULE = ("one seeded 5.1 file (all delimiter classes / comment sets); one malformed line (missing bracket, text after bracket, empty "
         "section name, key+text without delimiter) is injected at EVERY line position in turn (complete single-fault enumeration per "
         "file, plus one two-fault plan); the file is read alone or as main file / k-th drop-in of a tree through all eight read "
@@ -52,7 +52,8 @@ def gen_world(rng, i, tier):
                 # the parse options must not change which error is reported (JOIN_SAME_ENTRIES works on the
                 # entries after the file was read)
                 lw["read"]["opts"]["extra"] = rng.pick([[], [], ["JOIN_SAME_ENTRIES=1"], ["JOIN_SAME_ENTRIES=1"]])
-    w["stale"] = rng.pick([[], ["good"], ["bad"], ["good", "bad"], ["bad", "good"]])
+    # earlier reads of the same process: other files, other delimiter classes (the arguments live in reused buffers)
+    w["stale"] = rng.pick([[], ["good"], ["bad"], ["good", "bad"], ["bad", "good"], ["good:blank"], ["good:mixed", "bad"], ["good:none"], ["bad", "good:blank"]])
     return w
 
 
@@ -127,7 +128,9 @@ def plan_for(world, positions):
         read["ep"] = world["ep"][:-2] if cbv else world["ep"]
         ops += gen.prologue_ops(read)
     for s in world["stale"]:
-        ops.append({"op": "readFile", "o": 7, "path": "$ROOT/stale/%s.conf" % s, "delim": "=", "comment": "#", "tag": "stale"})
+        nm, _, dk = s.partition(":")
+        sd = {"": "=", "blank": " \t", "mixed": " =", "none": ""}[dk]
+        ops.append({"op": "readFile", "o": 7, "path": "$ROOT/stale/%s.conf" % nm, "delim": sd, "comment": "#;" if dk else "#", "tag": "stale"})
         ops.append({"op": "free", "k": 7})
     ops += gen.layered_read_ops(read, cb={} if cbv else None, init=world["init"])
     ops.append({"op": "errLocation", "tag": "loc"})
